@@ -442,37 +442,45 @@ def dense_amplitudes(psi):
 
 
 ENGINE_MATRIX = [
-    # (engine n, mixer, diag_method, combine, chi mode, explicit_plus_hc, run length)
-    (2, 'dm', 'default', False, 'full', False, 'conv'),
-    (2, 'sub', 'lanczos', True, 'full', False, 'conv'),
-    (2, 'dm', 'ED_block', True, 'full', False, 'conv'),
-    (2, 'dm', 'arpack', False, 'full', False, 'conv'),
-    (2, 'sub', 'default', False, 'list', False, 'conv'),
-    (2, 'dm', 'lanczos', False, 'full', True, 'conv'),
-    (2, 'none', 'default', False, 'full', False, 'conv'),
-    (2, 'none', 'lanczos', True, 'trunc', False, 'conv'),
-    (2, 'dm', 'default', True, 'trunc', False, 'conv'),
-    (2, 'dm', 'ED_all', False, 'full', False, 'conv'),
-    (1, 'sub', 'default', False, 'full', False, 'conv'),
-    (1, 'sub', 'lanczos', True, 'full', False, 'conv'),
-    (1, 'dm', 'default', False, 'full', False, 'conv'),
-    (1, 'none', 'ED_block', False, 'full', False, 'conv'),
-    (1, 'sub', 'arpack', False, 'trunc', False, 'conv'),
-    (1, 'sub', 'default', False, 'full', True, 'conv'),
-    (1, 'none', 'lanczos', True, 'full', False, 'conv'),
-    (1, 'none', 'lanczos', True, 'full', True, 'conv'),
-    (1, 'dm', 'lanczos', True, 'list', False, 'conv'),
+    # (engine n, mixer, diag_method, combine, chi mode, explicit_plus_hc, run length, lanczos_params['E_shift'])
+    (2, 'dm', 'default', False, 'full', False, 'conv', None),
+    (2, 'sub', 'lanczos', True, 'full', False, 'conv', None),
+    (2, 'dm', 'ED_block', True, 'full', False, 'conv', None),
+    (2, 'dm', 'arpack', False, 'full', False, 'conv', None),
+    (2, 'sub', 'default', False, 'list', False, 'conv', None),
+    (2, 'dm', 'lanczos', False, 'full', True, 'conv', None),
+    (2, 'none', 'default', False, 'full', False, 'conv', None),
+    (2, 'none', 'lanczos', True, 'trunc', False, 'conv', None),
+    (2, 'dm', 'default', True, 'trunc', False, 'conv', None),
+    (2, 'dm', 'ED_all', False, 'full', False, 'conv', None),
+    (1, 'sub', 'default', False, 'full', False, 'conv', None),
+    (1, 'sub', 'lanczos', True, 'full', False, 'conv', None),
+    (1, 'dm', 'default', False, 'full', False, 'conv', None),
+    (1, 'none', 'ED_block', False, 'full', False, 'conv', None),
+    (1, 'sub', 'arpack', False, 'trunc', False, 'conv', None),
+    (1, 'sub', 'default', False, 'full', True, 'conv', None),
+    (1, 'none', 'lanczos', True, 'full', False, 'conv', None),
+    (1, 'none', 'lanczos', True, 'full', True, 'conv', None),
+    (1, 'dm', 'lanczos', True, 'list', False, 'conv', None),
     # runs stopped long before convergence, with a truncated bond dimension: the energies of successive updates
     # differ and E_trunc is not negligible, so P3 really relates three different numbers
-    (2, 'none', 'default', False, 'trunc', False, 'short'),
-    (2, 'dm', 'lanczos', True, 'trunc', False, 'short'),
-    (2, 'sub', 'default', False, 'trunc', False, 'short'),
-    (1, 'sub', 'default', False, 'trunc', False, 'short'),
-    (1, 'none', 'lanczos', False, 'trunc', False, 'short'),
-    (2, 'none', 'lanczos', True, 'trunc', False, 'short'),
-    (1, 'none', 'default', True, 'trunc', False, 'short'),
-    (2, 'none', 'arpack', False, 'trunc', False, 'short'),
-    (1, 'dm', 'ED_block', True, 'trunc', False, 'short'),
+    (2, 'none', 'default', False, 'trunc', False, 'short', None),
+    (2, 'dm', 'lanczos', True, 'trunc', False, 'short', None),
+    (2, 'sub', 'default', False, 'trunc', False, 'short', None),
+    (1, 'sub', 'default', False, 'trunc', False, 'short', None),
+    (1, 'none', 'lanczos', False, 'trunc', False, 'short', None),
+    (2, 'none', 'lanczos', True, 'trunc', False, 'short', None),
+    (1, 'none', 'default', True, 'trunc', False, 'short', None),
+    (2, 'none', 'arpack', False, 'trunc', False, 'short', None),
+    (1, 'dm', 'ED_block', True, 'trunc', False, 'short', None),
+    # Lanczos with an artificial energy shift (documented: the returned E0 is independent of the shift).  Converged
+    # runs end with one-step Lanczos calls (start vector already an eigenvector), short ones with long Krylov spaces.
+    (2, 'dm', 'lanczos', False, 'full', False, 'conv', -3.0),
+    (2, 'none', 'lanczos', True, 'trunc', False, 'conv', 2.5),
+    (1, 'sub', 'lanczos', False, 'full', False, 'conv', -1.5),
+    (2, 'sub', 'lanczos', True, 'full', False, 'conv', 4.0),
+    (1, 'none', 'lanczos', False, 'trunc', False, 'short', -2.0),
+    (2, 'none', 'lanczos', False, 'trunc', False, 'short', 3.0),
 ]
 
 
@@ -481,14 +489,15 @@ def solvable_case(ctx, inst, ecfg, s0, origin):
     import numpy as np
     from tenpy.networks.mps import MPS
     from tenpy.algorithms import dmrg
-    n, mix, diag, combine, chimode, hc, length = ecfg
+    n, mix, diag, combine, chimode, hc, length, eshift = ecfg
     L = inst['L']
     scale = max(1.0, sum(abs(t['c']) * (3 if t['k'] == 'p32' else 1) for t in inst['terms']))
     tol = 1e-8 * scale
     E0 = inst['E0x4'] / 4.0
     q = 2 * inst['nup'] - L
     sig0 = dict(kind='replay', spec='Solvable', fam=inst['fam'], engine='TwoSite' if n == 2 else 'SingleSite', mix=mix,
-                diag=diag, combine=combine, chi=chimode, explicit_plus_hc=hc, length=length, E0zero=(inst['E0x4'] == 0))
+                diag=diag, combine=combine, chi=chimode, explicit_plus_hc=hc, length=length, E_shift=(eshift is not None),
+                E0zero=(inst['E0x4'] == 0))
     detail0 = dict(instance=tlaval.to_jsonable({k: inst[k] for k in ('fam', 'L', 'nup', 'var', 'terms', 'E0x4', 'nondeg', 'conn')}),
                    engine_cfg=list(ecfg), start=s0, origin=origin)
     M = build_term_model(inst, explicit_plus_hc=hc)
@@ -498,6 +507,8 @@ def solvable_case(ctx, inst, ecfg, s0, origin):
                 lanczos_params=dict(N_max=40, E_tol=1e-14, P_tol=1e-16, reortho=True))
     if mix != 'none':
         opts['mixer_params'] = dict(amplitude=1e-2, decay=1.5, disable_after=20)
+    if eshift is not None:
+        opts['lanczos_params']['E_shift'] = eshift
     if chimode == 'full':
         opts['trunc_params'] = dict(chi_max=2 ** (L // 2) + 4, svd_min=1e-14)
     elif chimode == 'trunc':
@@ -558,6 +569,10 @@ def solvable_case(ctx, inst, ecfg, s0, origin):
         # exact: the last update reports the energy before its truncation and the change caused by it
         if not abs(EH - (float(np.real(E)) + float(E_tr))) <= tol:
             fail('P3-energy-vs-expectation', expectation=EH, E_trunc_last=float(E_tr))
+        # ... and where the last sweep reports no truncation at all, the reported energy itself is the expectation value
+        # (E_trunc is measured relative to the eigensolver's energy, so the relation above cannot see an error in that)
+        elif max(eng.trunc_err_list) < 1e-14 and not abs(EH - float(np.real(E))) <= tol:
+            fail('P3-energy-vs-expectation-untruncated', expectation=EH, max_trunc_err=float(max(eng.trunc_err_list)))
     # (a run that stops while a mixer is still enabled has built its last environments from perturbed, not yet
     #  canonical tensors: its reported E / E_trunc are not expectation values, nothing is claimed about them)
     # P4 variational bound
@@ -582,15 +597,19 @@ def solvable_case(ctx, inst, ecfg, s0, origin):
 
 
 INF_ENGINES = [
-    # (engine, conserve, mixer, initial state, N_sweeps_check [update_env = N_sweeps_check // 2])
-    ('SingleSiteVUMPS', None, 'none', 'random', 1),
-    ('TwoSiteVUMPS', None, 'none', 'neel', 1),
-    ('TwoSiteDMRG', 'Sz', 'dm', 'neel', 2),
-    ('TwoSiteDMRG', 'Sz', 'sub', 'neel', 3),
-    ('SingleSiteDMRG', 'Sz', 'sub', 'neel', 1),
-    ('SingleSiteDMRG', 'Sz', 'sub', 'neel', 2),
-    ('TwoSiteDMRG', 'Sz', 'none', 'neel', 2),
-    ('SingleSiteDMRG', 'Sz', 'sub', 'neel', 10),
+    # (engine, conserve, mixer, initial state, N_sweeps_check [update_env = N_sweeps_check // 2], explicit_plus_hc, E_shift)
+    ('SingleSiteVUMPS', None, 'none', 'random', 1, False, None),
+    ('SingleSiteVUMPS', None, 'none', 'random', 1, True, None),
+    ('TwoSiteVUMPS', None, 'none', 'neel', 1, True, None),
+    ('TwoSiteVUMPS', None, 'none', 'neel', 1, False, 2.0),
+    ('TwoSiteDMRG', 'Sz', 'dm', 'neel', 2, False, None),
+    ('TwoSiteDMRG', 'Sz', 'sub', 'neel', 3, False, None),
+    ('TwoSiteDMRG', 'Sz', 'dm', 'neel', 2, True, None),
+    ('SingleSiteDMRG', 'Sz', 'sub', 'neel', 1, False, None),
+    ('SingleSiteDMRG', 'Sz', 'sub', 'neel', 2, False, None),
+    ('TwoSiteDMRG', 'Sz', 'none', 'neel', 2, False, None),
+    ('SingleSiteDMRG', 'Sz', 'sub', 'neel', 10, False, None),
+    ('SingleSiteVUMPS', None, 'none', 'random', 1, False, -1.5),
 ]
 
 
@@ -599,15 +618,15 @@ def infinite_case(ctx, inst, icfg, origin):
     import numpy as np
     from tenpy.networks.mps import MPS
     from tenpy.algorithms import dmrg, vumps
-    ename, conserve, mix, init, nchk = icfg
+    ename, conserve, mix, init, nchk, hc, eshift = icfg
     scale = max(1.0, sum(abs(t['c']) * (3 if t['k'] == 'p32' else 1) for t in inst['cell']))
     e0 = inst['E0cellx4'] / 8.0
     sig0 = dict(kind='replay', spec='Solvable', fam='chain2-infinite', engine=ename, mix=mix, conserve=str(conserve),
-                update_env=nchk // 2)
+                update_env=nchk // 2, explicit_plus_hc=hc, E_shift=(eshift is not None))
     detail0 = dict(instance=tlaval.to_jsonable({k: inst[k] for k in ('fam', 'L', 'nup', 'var', 'cell', 'E0cellx4')}),
                    engine_cfg=list(icfg), origin=origin)
     key = ('inf', inst['var'], icfg)
-    M = build_term_model(inst, conserve=conserve, infinite=True)
+    M = build_term_model(inst, conserve=conserve, explicit_plus_hc=hc, infinite=True)
     try:
         with warnings.catch_warnings():
             warnings.simplefilter('ignore')
@@ -620,6 +639,10 @@ def infinite_case(ctx, inst, icfg, origin):
                         max_S_err=1e-8, N_sweeps_check=nchk, max_trunc_err=None)
             if mix != 'none':
                 opts['mixer_params'] = dict(amplitude=1e-3, decay=2., disable_after=8)
+            if eshift is not None:
+                opts['lanczos_params'] = dict(E_shift=eshift)
+                if 'DMRG' in ename:
+                    opts['diag_method'] = 'lanczos'
             cls = dict(SingleSiteVUMPS=vumps.SingleSiteVUMPSEngine, TwoSiteVUMPS=vumps.TwoSiteVUMPSEngine,
                        TwoSiteDMRG=dmrg.TwoSiteDMRGEngine, SingleSiteDMRG=dmrg.SingleSiteDMRGEngine)[ename]
             eng = cls(psi, M, opts)
@@ -664,8 +687,8 @@ def stage_infinite(ctx, insts, rng):
     for j, inst in enumerate(pool[:2 if quick else 6]):
         cfgs = list(INF_ENGINES)
         if quick:
-            cfgs = [INF_ENGINES[0], INF_ENGINES[1 + (j + ctx.seed) % 2 * 1], INF_ENGINES[2 + (j + ctx.seed) % 3],
-                    INF_ENGINES[5 + (j + ctx.seed) % 3]]
+            r = j + ctx.seed
+            cfgs = [INF_ENGINES[r % 2], INF_ENGINES[1 + r % 2], INF_ENGINES[3 + r % 4], INF_ENGINES[7 + r % 5]]
         for icfg in cfgs:
             nrun += 1
             if infinite_case(ctx, inst, icfg, 'inf%d' % j):
@@ -680,7 +703,7 @@ def stage_solvable(ctx):
     if quick:
         insts = load_instances(ctx, 'Solvable(L in 4..6)', solv_cfg({'classical', 'dimer', 'mg', 'ferro', 'chain2'}, {4, 5, 6}, 3))
         per_fam = dict(classical=3, dimer=2, mg=2, ferro=5, chain2=2)
-        n_cfg = 3
+        n_cfg = 4
     else:
         insts = load_instances(ctx, 'Solvable(L in 3..6)', solv_cfg({'classical', 'dimer', 'mg', 'ferro', 'chain2'}, {3, 4, 5, 6}, 6))
         insts += load_instances(ctx, 'Solvable(L=8)', solv_cfg({'dimer', 'mg', 'ferro'}, {8}, 2))
@@ -690,6 +713,10 @@ def stage_solvable(ctx):
     chosen = []
     for fam, cnt in per_fam.items():
         pool = [I for I in insts if I['fam'] == fam and not (fam == 'classical' and I['nup'] in (0, I['L']))]
+        if fam == 'classical':   # ... plus one fully polarised (one-dimensional) sector
+            onedim = [I for I in insts if I['fam'] == fam and I['nup'] in (0, I['L'])]
+            rng.shuffle(onedim)
+            pool = onedim[:1] + pool
         rng.shuffle(pool)
         chosen += pool[:cnt]
     nrun = nok = 0
@@ -698,8 +725,9 @@ def stage_solvable(ctx):
         rng.shuffle(cfgs)
         # always one configuration to which the convergence clause P5 applies
         p5 = [c for c in ENGINE_MATRIX if c[0] == 2 and c[1] != 'none' and c[4] != 'trunc' and c[2] != 'ED_all' and c[6] == 'conv']
-        short = [c for c in ENGINE_MATRIX if c[6] == 'short']
-        cfgs = [rng.choice(p5), rng.choice(short)] + [c for c in cfgs[:n_cfg - 2]]
+        short = [c for c in ENGINE_MATRIX if c[6] == 'short' and c[7] is None]
+        shifted = [c for c in ENGINE_MATRIX if c[7] is not None]
+        cfgs = [rng.choice(p5), rng.choice(short), rng.choice(shifted)] + [c for c in cfgs[:n_cfg - 3]]
         for ecfg in cfgs:
             for s0 in product_states(inst, rng, 1 if quick else 2):
                 nrun += 1
@@ -890,7 +918,7 @@ def stage_canary(ctx):
     # (c) a wrong certified energy must make the replay postconditions fail
     insts = load_instances(_Probe(ctx), 'Solvable(canary)', solv_cfg({'ferro'}, {4}, 1))
     I = dict([x for x in insts if x['nup'] == 2][0])
-    ecfg = (2, 'dm', 'default', False, 'full', False, 'conv')
+    ecfg = (2, 'dm', 'default', False, 'full', False, 'conv', None)
     probe = _Probe(ctx)
     if not solvable_case(probe, I, ecfg, 5, 'canary') or probe.violations:
         raise core.MachineryError('canary: clean solvable case failed: %s' % probe.violations)
